@@ -726,7 +726,14 @@ class MemFs(VirtualFilestore):
                 return SymChecksum(Hs(ct + ALT_CK, nn))
             self.w.hs_claims.append(nn)  # a peer will compare its own checksum with this one
             return SymChecksum(Hs(ct, nn))
+        # the same content gives the same checksum: a repeated calculation over an unchanged file (same write
+        # log, same length argument) returns the token of the first one
+        memo_key = (k, ct, len(f.log), id(f), z3.simplify(n).sexpr())
+        memo = self.__dict__.setdefault("_cks_memo", {})
+        if memo_key in memo:
+            return SymChecksum(memo[memo_key])
         h = z3.Int(ctx.fresh("H"))
+        memo[memo_key] = h
         i = z3.Int(ctx.fresh("i"))
         end = _z(self.file_end(k))
         upto = len(f.log)
